@@ -67,6 +67,8 @@ func runC02(c *an.Ctx) {
 	c02index(c)
 	c02errfmt(c)
 	c02next(c)
+	c02parserLoops(c)
+	c02drainAgrees(c)
 }
 
 // ------------------------------------------------------------------------------------------- C02.width
